@@ -20,6 +20,19 @@ PROPS = {
         "assumptions": ["type invariant of authorities taken as precondition: auth_shape ('[' only opens the host, only ':port' follows ']', one '@' at most)"],
         "not_covered": ["validity of each part as a value of its own type (grammar lemma G3)"],
     },
+    "C12": {
+        "level": "proof",
+        "units": [{"kind": "verus", "name": "segment_at / next_segment_from / previous_segment_from / SegmentsImpl::{next,next_back} / first / last / directory / parent vs the positional '/'-split"}],
+        "assumptions": ["type invariant of paths as precondition: path_shape (no '?' and no '#')",
+                        "trait-impl methods (Iterator::next, DoubleEndedIterator::next_back) and default methods that call PathImpl-bounded generics are proved on mechanically generated free-function twins with the same body; the method itself carries the same contract as an assumption"],
+        "not_covered": ["file_name, segment_count and NormalizedSegments::len are iterator-adapter one-liners in the facade (outside Verus)"],
+    },
+    "C16": {
+        "level": "proof",
+        "units": [{"kind": "verus", "name": "PathImpl::directory and RiRefImpl::base vs 'text up to and including the last / of the path'"}],
+        "assumptions": [],
+        "not_covered": ["suffix() (PctStr comparison + NormalizedSegments + push): not under contract", "validity of base() as a value of the same kind (grammar lemma)"],
+    },
     "C20": {
         "level": "proof",
         "units": [{"kind": "verus", "name": "ranges returned by the decomposers are ordered, disjoint, inside the input"}],
@@ -29,6 +42,16 @@ PROPS = {
 }
 
 MANIFEST_TEXT = {
+    "C12": {
+        "technique": "Verus contracts on the real segment scanners and on the double-ended iterator (cursor invariant + per-step postconditions)",
+        "level_text": "Deductive proof for all paths: segment_at/next_segment_from/previous_segment_from return exactly the '/'-separated piece at a piece start and the neighbouring piece start; SegmentsImpl::next and next_back preserve the invariant 'front and back cursors are piece starts, front <= back' and yield the first / last remaining piece, so every interleaving yields each piece once and in order (composition of the two contracts, no enumeration of schedules); is_empty, is_absolute, first, last, directory, parent, parent_or_empty are proved against the same positional split.",
+        "level_note": "Assumed: path_shape as type invariant; twins (same body as free function) stand for trait-impl/default methods Verus cannot verify in place; file_name/segment_count/NormalizedSegments::len not covered.",
+    },
+    "C16": {
+        "technique": "Verus contracts on the real directory() and base()",
+        "level_text": "Deductive proof of the base half: PathImpl::directory returns the prefix up to and including the last '/' (or the empty path), and RiRefImpl::base returns the text up to the start of the path plus that directory. The suffix half is NOT decided.",
+        "level_note": "suffix() not under contract; 'base is a valid value of the same kind' relies on a grammar lemma that is not machine-checked.",
+    },
     "C01": {
         "technique": "Verus proof that each macro-generated validate (expanded from the current tree) accepts exactly the language of a reference DFA compiled from an independent RFC ABNF transcription",
         "level_text": "Deductive proof over all strings of all lengths for each of the 20 validated types: the expanded `validate` of the current tree (whatever grammar.abnf or cached *.aut.cbor produced it) satisfies `ensures r == lang_X(input@)` where lang_X is the run of a minimal DFA compiled from /verif/spec/rfc398{6,7}.abnf; the loop invariant carries a code-state -> reference-state map that Verus checks. A mismatch yields the shortest distinguishing string, replayed on the real constructor.",
@@ -61,11 +84,9 @@ NOT_APPLICABLE = {
     "C09": "check not built yet",
     "C10": "check not built yet",
     "C11": "check not built yet",
-    "C12": "check not built yet",
     "C13": "check not built yet",
     "C14": "all routes except from_vec and the conversions are emitted by the third-party static-regular-grammar derive or macro_rules templates, generic over serde traits; no item in /repo to put a contract on, and neither Verus nor Kani model fmt/serde",
     "C15": "check not built yet",
-    "C16": "check not built yet",
     "C17": "the objects are programs (macro invocations) run inside rustc on proc_macro::TokenStream; neither Verus nor Kani can specify or execute syn/quote",
     "C18": "check not built yet",
     "C19": "check not built yet",
